@@ -65,6 +65,7 @@ def run(res: C.Result):
                 lf["bias"] = 0.3
         p.update(criteria="shipped", vetoes=[], steps=8 if quick else 14, calc="caching", max_attempts=2, fixed=[], T=3000.0, mu=p.get("mu", -0.1))
         p["exchange"] = {"symbols": ["H"], "positions": [[0.0, 0.0, 0.0]]}
+        p["N0"] = n_      # every atom is an exchangeable one-atom particle here: the particle count handed to the simulation must say so
         cases.append({"program": p, "workdir": str(res.workdir)})
     # tables in which one move object sits under two names / inside a composite and stand-alone (the live run shares it, a rebuilt one does not),
     # and runs whose temperature is re-tuned on the way (what a long-lived criteria or move remembers must not matter)
